@@ -5,8 +5,12 @@
 -/
 import GormModel.Model.StmtCache
 import GormModel.Lemmas.StmtCacheInv
+import GormModel.Gen.LockSections
 namespace Gorm
 open SC
+
+/-- thread `t` runs `n` consecutive sections with answer `a` -/
+def stepsOf (t n : Nat) (a : Ans := .ok) : List Act := List.replicate n (.thr t a)
 
 /-- DEADLOCK FREEDOM.  In every state reachable by any schedule from any program (any number of goroutines, texts,
     views, transactions, Reset/Close), if some operation has not returned then some goroutine can take a step
@@ -48,10 +52,43 @@ theorem C14_deadlock_free (ops : List Op) (nV : Nat) (sched : List Act) :
       simp only
       cases hpc0 : (s.threads t0).pc <;> rw [hpc0] at hown <;> simp [owns] at hown <;> simp [stepUse, hpc0]
 
-/-! ### findings: concrete schedules on which the full statement fails (kernel-checked) -/
+/-- AT MOST ONCE (accounting form).  For every map object `m` (= cache generation: `NewPreparedStmtDB` and every
+    `Reset` allocate a fresh one) and every text `q`, after ANY schedule: the number of `ConnPool.PrepareContext`
+    calls issued for `(m, q)` equals the number of entries removed from `m[q]` (failed-prepare delete, ErrBadConn
+    eviction, Transaction entry overwritten by a non-transaction request — the only steps that log a removal)
+    plus one if an entry is cached now.  However many goroutines ask at the same time, a second PrepareContext
+    for the same text and generation needs a removal in between. -/
+theorem C14_at_most_once (ops : List Op) (nV : Nat) (sched : List Act) (m : Nat) (q : Text) :
+    let s := run (init ops nV) sched
+    prepCount s m q = removedCount s m q + (if (s.maps m q).isSome then 1 else 0) ∧
+    prepCount s m q ≤ removedCount s m q + 1 := by
+  intro s
+  have h := acct_reachable ops nV sched m q
+  refine ⟨h, ?_⟩
+  have h' : prepCount s m q = removedCount s m q + (if (s.maps m q).isSome then 1 else 0) := h
+  split at h' <;> omega
 
-/-- thread `t` runs `n` consecutive sections with answer `a` -/
-def stepsOf (t n : Nat) (a : Ans := .ok) : List Act := List.replicate n (.thr t a)
+/-- non-vacuity: three goroutines asking for the same text at the same time cause exactly one PrepareContext -/
+example : prepCount (run (init [.use 0 0 false, .use 0 0 false, .use 0 0 false])
+    (stepsOf 0 1 ++ stepsOf 1 1 ++ stepsOf 2 1 ++ stepsOf 0 1 ++ stepsOf 1 1 ++ stepsOf 2 1 ++ stepsOf 0 4 ++
+     stepsOf 1 3 ++ stepsOf 2 3 ++ stepsOf 0 1)) 0 0 = 1 := by decide
+
+/-- TIE of the step granularity (regenerated from prepare_stmt.go on every run): while `Mux` is held no driver /
+    database-sql call and no channel operation is executed (closers are only SPAWNED with `go`), so every
+    Lock..Unlock section is one atomic step of the LTS; and the sections are exactly the ones the model has:
+    Close, Reset, the four of `prepare` (RLock lookup, Lock double-check+publish, Lock delete, Lock store) and the
+    four ErrBadConn evictions. -/
+theorem C14_lock_sections_atomic :
+    (Gen.lockSections.all fun s => s.blockingCalls.isEmpty && s.chanOps == 0) = true ∧
+    Gen.lockSections.map (fun s => (s.fn, s.kind)) =
+      [("PreparedStmtDB.Close", "Lock"), ("PreparedStmtDB.Reset", "Lock"),
+       ("PreparedStmtDB.prepare", "RLock"), ("PreparedStmtDB.prepare", "Lock"),
+       ("PreparedStmtDB.prepare", "Lock"), ("PreparedStmtDB.prepare", "Lock"),
+       ("PreparedStmtDB.ExecContext", "Lock"), ("PreparedStmtDB.QueryContext", "Lock"),
+       ("PreparedStmtTX.ExecContext", "Lock"), ("PreparedStmtTX.QueryContext", "Lock")] := by
+  decide
+
+/-! ### findings: concrete schedules on which the full statement fails (kernel-checked) -/
 
 /-- F14b witness 1 (late delete after a FAILED prepare): a transaction prepares text 0; a non-transaction request
     overwrites the Transaction entry and prepares too; the transaction's PrepareContext fails and its
